@@ -206,8 +206,15 @@ def correspond(run, corr):
                            ["Header", "MTS", "BurstBits", "PDUv0Rx", "PDUv0Tx", "PDUv1Rx", "PDUv1Tx", "PDUv2Rx", "PDUv2Tx"])
     run.drift["trxd_proto.py"] = drift
     scale = 10 if (BASE_HASH and drift != BASE_HASH) else 1
-    defs = getattr(run, "trxd_defs", None) or trxd_proto.load(run)
-    lines = {n: cd.to_line(strip_live(defs["classes"][n])) for n in CLASSES}
+    defs = getattr(run, "trxd_defs", None)
+    if defs is None:
+        try:
+            defs = trxd_proto.load(run)
+        except vf.HarnessError as e:
+            # the translator cannot express the live definitions: the generic path (interpreter on the introspected
+            # definition) is skipped, the real classes are still compared with the model of the last translated definitions
+            corr.harness_errors.append(str(e)[-800:])
+    lines = {n: cd.to_line(strip_live(defs["classes"][n])) for n in CLASSES} if defs else None
     # 1. message codec output -> real PDU class and model; real octets vs Spec layout
     mc = msg_cases(rng, run.scale(600, 8000) * scale)
     ga = impl([m[0] for m in mc])
@@ -229,10 +236,12 @@ def correspond(run, corr):
         v = rand_value(rng, name)
         vline = cd.val_to_line(v)
         reqs.append("codec.pdu.enc %s %s" % (name, vline))
-        reqs.append("codec.enc %s %s" % (lines[name], vline))
+        if lines:
+            reqs.append("codec.enc %s %s" % (lines[name], vline))
         b = spec_bytes(name, v)
         reqs.append("codec.pdu.dec %s %s" % (name, cd.hx(b)))
-        reqs.append("codec.dec %s %s" % (lines[name], cd.hx(b)))
+        if lines:
+            reqs.append("codec.dec %s %s" % (lines[name], cd.hx(b)))
         bb = bytearray(b)
         k = rng.randrange(5)
         if k == 0:
@@ -407,6 +416,12 @@ def search(run, corr, deep):
         if a != want:
             wit.append({"kind": kind, "pdu": name, "request": r, "impl": a, "spec": want,
                         "mod": v.get('mod'), "nope": v.get('nope'), "batched": len(v.get('bpdu', []))})
+    # (3) history independence: what a PDU object answers never depends on what it encoded/decoded before.  Every request
+    # of a sample is issued twice in a row on the ONE long-lived object of its class, in a stream that interleaves the
+    # classes; each answer must be the answer of a newly created object.
+    hw = history_oracle(run, corr, r2, run.scale(1500, 12000))
+    if hw:
+        wit.append(hw)
     wit.sort(key=lambda w: len(json.dumps(w)))
     seen = set()
     for w in wit:
@@ -418,6 +433,41 @@ def search(run, corr, deep):
         if found >= 20:
             break
     return found
+
+
+def fresh(r):
+    return r.replace("codec.pdu.", "codec.pdu.fresh.", 1)
+
+
+def history_oracle(run, corr, pool, n):
+    rng = run.rng
+    pool = [r for r in pool if r.startswith("codec.pdu.")]
+    if not pool:
+        return None
+    sample = [rng.choice(pool) for _ in range(n)]
+    stream = []
+    for r in sample:
+        stream += [r, r]
+    got = impl(stream)
+    ref = impl([fresh(r) for r in stream])
+    corr.distribution["oracle: history independence (requests on one long-lived object vs a new object)"] = len(stream)
+    for i, (r, a, b) in enumerate(zip(stream, got, ref)):
+        if a == b:
+            continue
+        # the shortest suffix of the same class's earlier requests that reproduces it in a new harness process
+        cls = r.split()[1]
+        prev = [x for x in stream[:i] if x.split()[1] == cls]
+        hist = None
+        for k in (1, 2, 3, 5, 8, 16, len(prev)):
+            h = prev[-k:] + [r] if k else [r]
+            if impl(h)[-1] != b:
+                hist = h
+                break
+            if k >= len(prev):
+                break
+        return {"kind": "history-dependent", "pdu": cls, "history": hist or (prev + [r]), "impl": a[:300],
+                "spec": "the answer of a newly created %s object: %s" % (cls, b[:300])}
+    return None
 
 
 def same_fields(want, got):
@@ -441,6 +491,14 @@ def replay(run, path):
             print("replay: no concrete input recorded (%s)" % json.dumps(v.get("broken"))[:400])
             continue
         kind = w["kind"]
+        if kind == "history-dependent":
+            out = impl(w["history"])[-1]
+            ref = impl([fresh(w["history"][-1])])[0]
+            still = out != ref
+            print("replay history-dependent (%d requests on one %s object)\n  last request: %s\n  impl        : %s\n  new object  : %s" % (
+                len(w["history"]), w["pdu"], w["history"][-1][:200], out[:200], ref[:200]))
+            bad += bool(still)
+            continue
         if "msg" in w:
             a = impl([w["msg"]])[0]
             out = impl(["codec.pdu.dec %s %s" % (w["pdu"], a.split()[1])])[0] if a.startswith("ok ") else a
